@@ -55,10 +55,13 @@ def flow_after(p, i):
     return p.world.storage['flows'].entries[i][1]
 
 
-def run(ck):
+def run(ck, c12_only=False):
     prog = ck.program('incentive', 'white_whale_std')
     cfgs = [(8, 1, False, 5, None), (8, 1, True, 5, None), (None, 1, False, 9, None), (None, 2, False, 8, [8, 10]), (8, 0, False, 5, [9, 11]), (None, 0, False, 5, [10, 11]), (None, 1, False, 8, [6, 7])]
     if ck.tier == 'thorough': cfgs += [(7, 1, False, 5, None), (8, 2, False, 5, None), (7, 1, True, 5, None), (None, 1, False, 8, None)]
+    if c12_only:
+        # the C12 part: only the funded-amount bound, on the configurations with fully symbolic amounts
+        cfgs = [x for x in cfgs if x[4] is None]
     for last, nflows, expanded, start, hist_epochs in cfgs:
         tag = 'claim.last%s.f%d%s.s%d%s' % (last, nflows, '.exp' if expanded else '', start, '.gap' if hist_epochs else '')
         # ---- differential: rewards query immediately before the claim, same state ----
@@ -84,6 +87,7 @@ def run(ck):
                     claimed2 = fa.fields[4].fields[0]
                     ck.oblige('C13.claim.claimed_ledger.%s.f%d' % (tag, i), p, claimed2 != f['claimed'] + paid, 'claimed amount grows by exactly what is paid')
                     ck.oblige('C12.claim.le_funded.%s.f%d' % (tag, i), p, claimed2 > f['total'], 'claims never exceed the funded (expanded) amount')
+                    if c12_only: continue
                     # per epoch: reward <= emission  (emitted_tokens is cumulative)
                     em = {k: v.fields[0] for k, v in fa.fields[8].pairs}
                     sends = [e for e in eff if e.kind == 'send' and same(e.asset, name)]
@@ -108,6 +112,7 @@ def run(ck):
                         for a in q.fields[0].fields[0].payload.fields[0].items:
                             if same(a.fields[0].fields[0], name): quoted = quoted + a.fields[1].fields[0]
                         ck.oblige('C13.claim.eq_query.%s.f%d' % (tag, i), p, paid != quoted, 'a successful claim pays exactly what the rewards query reported immediately before')
+                if c12_only: continue
                 ck.oblige('C13.claim.query_ok.' + tag, p, q.variant != 'Ok', 'the rewards query succeeds whenever the claim does')
                 # the weight history after a claim: one entry, for the next epoch, holding the weight the user has NOW (Inv: ADDRESS_WEIGHT equals the latest
                 # history entry, which a position change made in the current epoch has written for the next epoch)
@@ -120,6 +125,9 @@ def run(ck):
                 lc = p.world.storage['last_claimed_epoch'].entries
                 ck.oblige('C13.claim.cursor.' + tag, p, len(lc) != 1 or lc[0][1] != CUR, 'the claim cursor moves to the current epoch')
         ck.require(n >= 1, tag + ': no Ok claim path')
+    if c12_only:
+        ck.bounds.update(claim='claim part: current epoch 10, cursor 8 (thorough 7) or absent, one flow (thorough two), 0-1 expansion; pre-state claimed amount arbitrary <= funded')
+        return
     # ---- twice in one epoch ----
     def body2(it):
         st = claim_world(it, 8, 1, False)
